@@ -227,7 +227,7 @@ theorem C02_wire_redirect (acs query : String) :
     · simp only [h]; simp at h; simp [h]
 
 theorem C02_source_current : Gen.Facts.ssoChain = Expected.ssoChain ∧ Gen.Facts.sloChain = Expected.sloChain ∧
-    FactsUtil.sameHashes ["provider.Response.sendBackResponse", "provider.LogoutResponse.sendBackLogoutResponse"] = true :=
+    FactsUtil.sameHashes ["provider.LogoutResponse.sendBackLogoutResponse"] = true :=
   ⟨by decide, by decide, by decide⟩
 
 end C02
